@@ -17,6 +17,8 @@ pub mod c14;
 pub mod c15;
 pub mod c16;
 pub mod c17;
+pub mod c18;
+pub mod c19;
 pub mod textgen;
 
 pub fn dispatch(id: &str, cfg: Config) -> i32 {
@@ -38,6 +40,8 @@ pub fn dispatch(id: &str, cfg: Config) -> i32 {
         "C15" => crate::run_prop(c15::C15, cfg),
         "C16" => crate::run_prop(c16::C16, cfg),
         "C17" => crate::run_prop(c17::C17, cfg),
+        "C18" => crate::run_prop(c18::C18, cfg),
+        "C19" => crate::run_prop(c19::C19, cfg),
         _ => {
             eprintln!("unknown property {}", id);
             2
